@@ -15,25 +15,46 @@ var AddHook func(addr unsafe.Pointer, newVal uint64)
 var StoreHook func(v interface{})
 var StoreU64Hook func(addr unsafe.Pointer, v uint64)
 
+//go:norace
 func rd(p unsafe.Pointer, l string) { vrt.Atomic(p, false, l) }
+
+//go:norace
 func wr(p unsafe.Pointer, l string) { vrt.Atomic(p, true, l) }
 
-func LoadInt32(a *int32) int32    { rd(unsafe.Pointer(a), "LoadInt32"); return atomic.LoadInt32(a) }
-func LoadInt64(a *int64) int64    { rd(unsafe.Pointer(a), "LoadInt64"); return atomic.LoadInt64(a) }
+//go:norace
+func LoadInt32(a *int32) int32 { rd(unsafe.Pointer(a), "LoadInt32"); return atomic.LoadInt32(a) }
+
+//go:norace
+func LoadInt64(a *int64) int64 { rd(unsafe.Pointer(a), "LoadInt64"); return atomic.LoadInt64(a) }
+
+//go:norace
 func LoadUint32(a *uint32) uint32 { rd(unsafe.Pointer(a), "LoadUint32"); return atomic.LoadUint32(a) }
+
+//go:norace
 func LoadUint64(a *uint64) uint64 { rd(unsafe.Pointer(a), "LoadUint64"); return atomic.LoadUint64(a) }
+
+//go:norace
 func LoadUintptr(a *uintptr) uintptr {
 	rd(unsafe.Pointer(a), "LoadUintptr")
 	return atomic.LoadUintptr(a)
 }
+
+//go:norace
 func LoadPointer(a *unsafe.Pointer) unsafe.Pointer {
 	rd(unsafe.Pointer(a), "LoadPointer")
 	return atomic.LoadPointer(a)
 }
 
-func StoreInt32(a *int32, v int32)    { wr(unsafe.Pointer(a), "StoreInt32"); atomic.StoreInt32(a, v) }
-func StoreInt64(a *int64, v int64)    { wr(unsafe.Pointer(a), "StoreInt64"); atomic.StoreInt64(a, v) }
+//go:norace
+func StoreInt32(a *int32, v int32) { wr(unsafe.Pointer(a), "StoreInt32"); atomic.StoreInt32(a, v) }
+
+//go:norace
+func StoreInt64(a *int64, v int64) { wr(unsafe.Pointer(a), "StoreInt64"); atomic.StoreInt64(a, v) }
+
+//go:norace
 func StoreUint32(a *uint32, v uint32) { wr(unsafe.Pointer(a), "StoreUint32"); atomic.StoreUint32(a, v) }
+
+//go:norace
 func StoreUint64(a *uint64, v uint64) {
 	wr(unsafe.Pointer(a), "StoreUint64")
 	atomic.StoreUint64(a, v)
@@ -41,27 +62,38 @@ func StoreUint64(a *uint64, v uint64) {
 		h(unsafe.Pointer(a), v)
 	}
 }
+
+//go:norace
 func StoreUintptr(a *uintptr, v uintptr) {
 	wr(unsafe.Pointer(a), "StoreUintptr")
 	atomic.StoreUintptr(a, v)
 }
+
+//go:norace
 func StorePointer(a *unsafe.Pointer, v unsafe.Pointer) {
 	wr(unsafe.Pointer(a), "StorePointer")
 	atomic.StorePointer(a, v)
 }
 
+//go:norace
 func AddInt32(a *int32, d int32) int32 {
 	wr(unsafe.Pointer(a), "AddInt32")
 	return atomic.AddInt32(a, d)
 }
+
+//go:norace
 func AddInt64(a *int64, d int64) int64 {
 	wr(unsafe.Pointer(a), "AddInt64")
 	return atomic.AddInt64(a, d)
 }
+
+//go:norace
 func AddUint32(a *uint32, d uint32) uint32 {
 	wr(unsafe.Pointer(a), "AddUint32")
 	return atomic.AddUint32(a, d)
 }
+
+//go:norace
 func AddUint64(a *uint64, d uint64) uint64 {
 	wr(unsafe.Pointer(a), "AddUint64")
 	v := atomic.AddUint64(a, d)
@@ -70,56 +102,80 @@ func AddUint64(a *uint64, d uint64) uint64 {
 	}
 	return v
 }
+
+//go:norace
 func AddUintptr(a *uintptr, d uintptr) uintptr {
 	wr(unsafe.Pointer(a), "AddUintptr")
 	return atomic.AddUintptr(a, d)
 }
 
+//go:norace
 func SwapInt32(a *int32, v int32) int32 {
 	wr(unsafe.Pointer(a), "SwapInt32")
 	return atomic.SwapInt32(a, v)
 }
+
+//go:norace
 func SwapInt64(a *int64, v int64) int64 {
 	wr(unsafe.Pointer(a), "SwapInt64")
 	return atomic.SwapInt64(a, v)
 }
+
+//go:norace
 func SwapUint32(a *uint32, v uint32) uint32 {
 	wr(unsafe.Pointer(a), "SwapUint32")
 	return atomic.SwapUint32(a, v)
 }
+
+//go:norace
 func SwapUint64(a *uint64, v uint64) uint64 {
 	wr(unsafe.Pointer(a), "SwapUint64")
 	return atomic.SwapUint64(a, v)
 }
+
+//go:norace
 func SwapUintptr(a *uintptr, v uintptr) uintptr {
 	wr(unsafe.Pointer(a), "SwapUintptr")
 	return atomic.SwapUintptr(a, v)
 }
+
+//go:norace
 func SwapPointer(a *unsafe.Pointer, v unsafe.Pointer) unsafe.Pointer {
 	wr(unsafe.Pointer(a), "SwapPointer")
 	return atomic.SwapPointer(a, v)
 }
 
+//go:norace
 func CompareAndSwapInt32(a *int32, o, n int32) bool {
 	wr(unsafe.Pointer(a), "CompareAndSwapInt32")
 	return atomic.CompareAndSwapInt32(a, o, n)
 }
+
+//go:norace
 func CompareAndSwapInt64(a *int64, o, n int64) bool {
 	wr(unsafe.Pointer(a), "CompareAndSwapInt64")
 	return atomic.CompareAndSwapInt64(a, o, n)
 }
+
+//go:norace
 func CompareAndSwapUint32(a *uint32, o, n uint32) bool {
 	wr(unsafe.Pointer(a), "CompareAndSwapUint32")
 	return atomic.CompareAndSwapUint32(a, o, n)
 }
+
+//go:norace
 func CompareAndSwapUint64(a *uint64, o, n uint64) bool {
 	wr(unsafe.Pointer(a), "CompareAndSwapUint64")
 	return atomic.CompareAndSwapUint64(a, o, n)
 }
+
+//go:norace
 func CompareAndSwapUintptr(a *uintptr, o, n uintptr) bool {
 	wr(unsafe.Pointer(a), "CompareAndSwapUintptr")
 	return atomic.CompareAndSwapUintptr(a, o, n)
 }
+
+//go:norace
 func CompareAndSwapPointer(a *unsafe.Pointer, o, n unsafe.Pointer) bool {
 	wr(unsafe.Pointer(a), "CompareAndSwapPointer")
 	return atomic.CompareAndSwapPointer(a, o, n)
@@ -128,7 +184,10 @@ func CompareAndSwapPointer(a *unsafe.Pointer, o, n unsafe.Pointer) bool {
 // Value is a scheduled atomic.Value.
 type Value struct{ v atomic.Value }
 
+//go:norace
 func (v *Value) Load() interface{} { rd(unsafe.Pointer(v), "Value.Load"); return v.v.Load() }
+
+//go:norace
 func (v *Value) Store(x interface{}) {
 	wr(unsafe.Pointer(v), "Value.Store")
 	v.v.Store(x)
@@ -136,10 +195,14 @@ func (v *Value) Store(x interface{}) {
 		h(x)
 	}
 }
+
+//go:norace
 func (v *Value) Swap(x interface{}) interface{} {
 	wr(unsafe.Pointer(v), "Value.Swap")
 	return v.v.Swap(x)
 }
+
+//go:norace
 func (v *Value) CompareAndSwap(o, n interface{}) bool {
 	wr(unsafe.Pointer(v), "Value.CompareAndSwap")
 	return v.v.CompareAndSwap(o, n)
@@ -148,10 +211,19 @@ func (v *Value) CompareAndSwap(o, n interface{}) bool {
 // Typed atomics.
 type Int32 struct{ v atomic.Int32 }
 
-func (x *Int32) Load() int32        { rd(unsafe.Pointer(x), "Int32.Load"); return x.v.Load() }
-func (x *Int32) Store(v int32)      { wr(unsafe.Pointer(x), "Int32.Store"); x.v.Store(v) }
-func (x *Int32) Add(d int32) int32  { wr(unsafe.Pointer(x), "Int32.Add"); return x.v.Add(d) }
+//go:norace
+func (x *Int32) Load() int32 { rd(unsafe.Pointer(x), "Int32.Load"); return x.v.Load() }
+
+//go:norace
+func (x *Int32) Store(v int32) { wr(unsafe.Pointer(x), "Int32.Store"); x.v.Store(v) }
+
+//go:norace
+func (x *Int32) Add(d int32) int32 { wr(unsafe.Pointer(x), "Int32.Add"); return x.v.Add(d) }
+
+//go:norace
 func (x *Int32) Swap(v int32) int32 { wr(unsafe.Pointer(x), "Int32.Swap"); return x.v.Swap(v) }
+
+//go:norace
 func (x *Int32) CompareAndSwap(o, n int32) bool {
 	wr(unsafe.Pointer(x), "Int32.CompareAndSwap")
 	return x.v.CompareAndSwap(o, n)
@@ -159,10 +231,19 @@ func (x *Int32) CompareAndSwap(o, n int32) bool {
 
 type Int64 struct{ v atomic.Int64 }
 
-func (x *Int64) Load() int64        { rd(unsafe.Pointer(x), "Int64.Load"); return x.v.Load() }
-func (x *Int64) Store(v int64)      { wr(unsafe.Pointer(x), "Int64.Store"); x.v.Store(v) }
-func (x *Int64) Add(d int64) int64  { wr(unsafe.Pointer(x), "Int64.Add"); return x.v.Add(d) }
+//go:norace
+func (x *Int64) Load() int64 { rd(unsafe.Pointer(x), "Int64.Load"); return x.v.Load() }
+
+//go:norace
+func (x *Int64) Store(v int64) { wr(unsafe.Pointer(x), "Int64.Store"); x.v.Store(v) }
+
+//go:norace
+func (x *Int64) Add(d int64) int64 { wr(unsafe.Pointer(x), "Int64.Add"); return x.v.Add(d) }
+
+//go:norace
 func (x *Int64) Swap(v int64) int64 { wr(unsafe.Pointer(x), "Int64.Swap"); return x.v.Swap(v) }
+
+//go:norace
 func (x *Int64) CompareAndSwap(o, n int64) bool {
 	wr(unsafe.Pointer(x), "Int64.CompareAndSwap")
 	return x.v.CompareAndSwap(o, n)
@@ -170,10 +251,19 @@ func (x *Int64) CompareAndSwap(o, n int64) bool {
 
 type Uint32 struct{ v atomic.Uint32 }
 
-func (x *Uint32) Load() uint32         { rd(unsafe.Pointer(x), "Uint32.Load"); return x.v.Load() }
-func (x *Uint32) Store(v uint32)       { wr(unsafe.Pointer(x), "Uint32.Store"); x.v.Store(v) }
-func (x *Uint32) Add(d uint32) uint32  { wr(unsafe.Pointer(x), "Uint32.Add"); return x.v.Add(d) }
+//go:norace
+func (x *Uint32) Load() uint32 { rd(unsafe.Pointer(x), "Uint32.Load"); return x.v.Load() }
+
+//go:norace
+func (x *Uint32) Store(v uint32) { wr(unsafe.Pointer(x), "Uint32.Store"); x.v.Store(v) }
+
+//go:norace
+func (x *Uint32) Add(d uint32) uint32 { wr(unsafe.Pointer(x), "Uint32.Add"); return x.v.Add(d) }
+
+//go:norace
 func (x *Uint32) Swap(v uint32) uint32 { wr(unsafe.Pointer(x), "Uint32.Swap"); return x.v.Swap(v) }
+
+//go:norace
 func (x *Uint32) CompareAndSwap(o, n uint32) bool {
 	wr(unsafe.Pointer(x), "Uint32.CompareAndSwap")
 	return x.v.CompareAndSwap(o, n)
@@ -181,10 +271,19 @@ func (x *Uint32) CompareAndSwap(o, n uint32) bool {
 
 type Uint64 struct{ v atomic.Uint64 }
 
-func (x *Uint64) Load() uint64         { rd(unsafe.Pointer(x), "Uint64.Load"); return x.v.Load() }
-func (x *Uint64) Store(v uint64)       { wr(unsafe.Pointer(x), "Uint64.Store"); x.v.Store(v) }
-func (x *Uint64) Add(d uint64) uint64  { wr(unsafe.Pointer(x), "Uint64.Add"); return x.v.Add(d) }
+//go:norace
+func (x *Uint64) Load() uint64 { rd(unsafe.Pointer(x), "Uint64.Load"); return x.v.Load() }
+
+//go:norace
+func (x *Uint64) Store(v uint64) { wr(unsafe.Pointer(x), "Uint64.Store"); x.v.Store(v) }
+
+//go:norace
+func (x *Uint64) Add(d uint64) uint64 { wr(unsafe.Pointer(x), "Uint64.Add"); return x.v.Add(d) }
+
+//go:norace
 func (x *Uint64) Swap(v uint64) uint64 { wr(unsafe.Pointer(x), "Uint64.Swap"); return x.v.Swap(v) }
+
+//go:norace
 func (x *Uint64) CompareAndSwap(o, n uint64) bool {
 	wr(unsafe.Pointer(x), "Uint64.CompareAndSwap")
 	return x.v.CompareAndSwap(o, n)
@@ -192,9 +291,16 @@ func (x *Uint64) CompareAndSwap(o, n uint64) bool {
 
 type Bool struct{ v atomic.Bool }
 
-func (x *Bool) Load() bool       { rd(unsafe.Pointer(x), "Bool.Load"); return x.v.Load() }
-func (x *Bool) Store(v bool)     { wr(unsafe.Pointer(x), "Bool.Store"); x.v.Store(v) }
+//go:norace
+func (x *Bool) Load() bool { rd(unsafe.Pointer(x), "Bool.Load"); return x.v.Load() }
+
+//go:norace
+func (x *Bool) Store(v bool) { wr(unsafe.Pointer(x), "Bool.Store"); x.v.Store(v) }
+
+//go:norace
 func (x *Bool) Swap(v bool) bool { wr(unsafe.Pointer(x), "Bool.Swap"); return x.v.Swap(v) }
+
+//go:norace
 func (x *Bool) CompareAndSwap(o, n bool) bool {
 	wr(unsafe.Pointer(x), "Bool.CompareAndSwap")
 	return x.v.CompareAndSwap(o, n)
